@@ -610,7 +610,7 @@ def handle_violations(prop, agg, known, out=print):
         seen.add(sig)
         path = os.path.join(VERIF, 'replays', '%s-%d.json' % (prop, v['seed']))
         with open(path, 'w') as f:
-            json.dump({'property': prop, 'profile': PROFILE_OF[prop], 'seed': v['seed'],
+            json.dump({'optimize': bool(sys.flags.optimize), 'property': prop, 'profile': PROFILE_OF[prop], 'seed': v['seed'],
                        'violation': r['violation'], 'digest': r['digest'],
                        'shrink_runs': r['shrink_runs'], 'original_ops': len(v['plan']['ops']),
                        'plan': r['plan']}, f, indent=1)
@@ -667,6 +667,7 @@ def write_evidence(prop, tier, base_seed, agg, st_msg, violations_new, extra=Non
             'harness_errors': agg['harness'][:5],
             'lost_tasks': agg.get('lost_tasks', [])[:5],
         },
+        'interpreter': {'optimize': bool(sys.flags.optimize), 'note': 'odd VERIF_SEED values run the whole check under python -O'},
         'assumptions': [
             'the non-caching parser is the reference (a bug common to both paths is invisible)',
             'SimFS models POSIX semantics of the calls parso makes; NFS/Windows semantics are not modelled',
